@@ -680,23 +680,38 @@ def _worker(args):
         if u.meta.get("inject") and u.generated:
             u.meta["inject_accepted"] = True       # the model behind it lacks the injected names: keep it out of the arena
             u.generated = None
-    arena = Arena(Path(root), str(shard))
     gen_units = [u for u in units if u.generated]
-    twin_units = [u for u in gen_units if getattr(u, "twin", True)]
-    arena.write_mixed(gen_units)
-    failed = arena.build("dev")
-    t1 = time.time()
-    jobs, meta, inputs_of = make_jobs(units, rng, tier)
-    results, incidents = arena.run(jobs)
-    t2 = time.time()
+    # one crate per <= 20 grammars: rustc's memory grows with the crate (a 200-grammar crate needs ~7 GB, times 16 shards)
+    jobs, meta, inputs_of, results, incidents = [], {}, {}, {}, []
+    tb = tr = 0.0
+    for ci in range(0, max(1, len(gen_units)), 20):
+        chunk = gen_units[ci:ci + 20]
+        if not chunk:
+            break
+        ta = time.time()
+        arena = Arena(Path(root), f"{shard}_{ci // 20}")
+        arena.write_mixed(chunk)
+        arena.build("dev")
+        tb += time.time() - ta
+        ta = time.time()
+        j, m, io = make_jobs(chunk, rng, tier)
+        r, inc = arena.run(j)
+        tr += time.time() - ta
+        jobs += j
+        meta.update(m)
+        inputs_of.update(io)
+        results.update(r)
+        incidents += inc
+        rmtree(arena.dir)
+    t1 = t0 + tb
+    t2 = t1 + tr
     V = evaluate(units, jobs, meta, inputs_of, results, incidents, tier)
     V.counts["arena"]["grammars"] += len(units)
     V.counts["arena"]["code_variants"] += sum(len(getattr(u, "variants", [])) for u in units)
     V.counts["arena"]["jobs"] += len(jobs)
     V.counts["arena"]["results"] += len(results)
-    V.counts["arena"]["build_s"] += int(t1 - t0)
-    V.counts["arena"]["run_s"] += int(t2 - t1)
-    V.counts["arena"]["eval_s"] += int(time.time() - t2)
+    V.counts["arena"]["build_s"] += int(tb)
+    V.counts["arena"]["run_s"] += int(tr)
     for u in units:
         if True:
             for f in u.meta.get("features", []):
@@ -705,7 +720,6 @@ def _worker(args):
             pc = u.probe_counts
             if pc and has_kind(u.g, ("choice",)) and not pc.get("alt"):
                 V.inconclusive["C08"].append({"reason": "P-alt anchors not found in emitted parser", "witness": {"grammar": u.text}})
-    rmtree(arena.dir)
     rmtree(Path(root) / f"w{shard}")
     return V.to_json()
 
